@@ -4,7 +4,7 @@
 import json, os, re, shutil, sys
 V = '/verif'
 def main(pid, trial_dir, note=''):
-    src = '/tmp/mut/%s/out' % pid
+    src = os.environ.get('SEED_SRC', '/tmp/mut/%s/out') % pid
     dst = os.path.join(V, 'seeded', pid)
     os.makedirs(dst, exist_ok=True)
     shutil.copy(os.path.join(src, 'patch.diff'), os.path.join(dst, 'patch.diff'))
@@ -15,10 +15,12 @@ def main(pid, trial_dir, note=''):
     try:
         meta = json.load(open(os.path.join(src, 'meta.json')))
     except Exception as e:
-        meta = {'property': pid, 'summary': 'see patch.diff'}
+        meta = {'property': pid[:3], 'summary': 'see notes.md (written by the sub-agent that made the change) and patch.diff'}
+    if os.path.exists(os.path.join(src, 'notes.md')):
+        shutil.copy(os.path.join(src, 'notes.md'), os.path.join(dst, 'notes.md'))
     conf = open(os.path.join(src, 'confirm.txt')).read().strip().split('\n') if os.path.exists(os.path.join(src, 'confirm.txt')) else []
     meta['confirmed_by_me'] = {
-        'how': 'lib/seed_confirm.sh in the scratch worktree: (1) cargo test --offline --test <demo> with the change, (2) cargo test --workspace --no-fail-fast --offline with the change and the demo moved aside, (3) the demo again with src stashed',
+        'how': 'lib/seed_confirm.sh in the scratch worktree: (1) cargo test --offline --test <demo> with the change, (2) cargo test --workspace --no-fail-fast --offline with the change and the demo moved aside, (3) the demo again with the change reverse-applied',
         'result': conf}
     summ = os.path.join(trial_dir, 'summary.txt')
     lines = open(summ).read().strip().split('\n') if os.path.exists(summ) else []
@@ -31,7 +33,7 @@ def main(pid, trial_dir, note=''):
             scen = sorted(set(re.sub(r'_\d+\.ops.*$', '', os.path.basename(x.split('replay=')[1])) for x in vl))
             viol.append({'check': m.group(1), 'exit': int(m.group(2)), 'violation_lines': len(vl),
                          'with_failing_input': sum(1 for x in vl if 'no-failing-input-found' not in x), 'replay_prefixes': scen[:8]})
-    meta['trial'] = {'how': 'lib/seed_trial.sh: git -C /repo apply patch.diff; ./check <id> --tier quick (evidence/replays redirected); git -C /repo checkout -- .',
+    meta['trial'] = {'how': os.environ.get('SEED_TRIAL_HOW', 'lib/seed_trial.sh: git -C /repo apply patch.diff; ./check <id> --tier quick (evidence/replays redirected); git -C /repo checkout -- .'),
                      'checks': viol, 'note': note}
     meta['demo_command'] = 'copy %s to tests/ of a worktree with patch.diff applied; CARGO_NET_OFFLINE=true cargo test --offline --test %s' % (demo[0] if demo else '?', demo[0][:-3] if demo else '?')
     json.dump(meta, open(os.path.join(dst, 'meta.json'), 'w'), indent=1)
